@@ -400,4 +400,9 @@ func runC02(c *eng.Ctx) {
 	// ---- R15.8 (shared) the configuration keys this property's switches hang on reach their fields
 	ruleConfigWiring(c, "R15.8")
 
+	// ---- R01.12 (shared) Truncate removes exactly the messages at and above the offset
+	c.Rule("R01.12", "K5")
+	ruleTruncateShapes(c)
+	c.Floor(8)
+
 }
